@@ -309,3 +309,52 @@ def _pvariant(f, operand):
         else:
             return None
     return None
+
+
+def rule_set_inproc(ctx, cfg, F):
+    R = ctx.rule("SET-INPROC", "in-process set: add() appends exactly one id and one (consumed) receiver, to the two parallel vectors, on every path; select() reports exactly one event per call, "
+                 "built from the message of the selected operation, and a failed receive removes the member and reports it closed")
+    add, sel = set_fns(F, "inprocess")
+    if not add or not sel:
+        R.violate("anchor-missing:inprocess-set", "in-process add/select not found", config=cfg)
+        return
+    tr = Tracer(add)
+    pushes = [(b, t) for b, t in add.calls_to("std::vec::Vec::push")]
+    targets = sorted(next(iter(x.field_names()[:1] for x in tr.roots_of_operand(t["args"][0]) if x.kind == "param"), ("?",))[0] for b, t in pushes)
+    ok = targets == ["receiver_ids", "receivers"] and all(add.all_paths_pass(0, [b])[0] for b, t in pushes)
+    rcv = [t for b, t in pushes if "OsIpcReceiver" in " ".join(t.get("generics", []))]
+    consumed = bool(rcv) and any(r.kind == "call" and r.id.endswith("::OsIpcReceiver::consume") for r in tr.roots_of_operand(rcv[0]["args"][1]))
+    R.count("add_pushes[%s]" % cfg, len(pushes))
+    if ok and consumed:
+        R.ok("add pushes one id and one consumed receiver on every path", add.loc(pushes[0][0]), cfg)
+    else:
+        R.violate("%s:parallel-push" % add.path, "add does not push exactly one id and one consumed receiver onto the parallel vectors (targets %s, consumed %s)" % (targets, consumed), add.path, add.loc(0), config=cfg)
+    trs = Tracer(sel)
+    # every Ok return carries a one-element vector
+    n_ret = 0
+    bad = None
+    for b in sorted(sel.live_blocks()):
+        if sel.is_cleanup(b):
+            continue
+        for si, st in enumerate(sel.stmts(b)):
+            if st["s"] == "assign" and st["lhs"]["l"] == 0 and st["rv"]["r"] == "agg" and st["rv"]["kind"].get("variant") == "Ok":
+                n_ret += 1
+                # the vector comes from a boxed 1-array (vec![x])
+                names = set()
+                from vlib.flow import chain_calls
+                names = chain_calls(sel, st["rv"]["a"][0])
+                one = any("box_assume_init_into_vec" in n or "into_vec" in n or n.endswith("from_elem") for n in names) or any(r.kind == "agg" and r.id == "array" for r in trs.roots_of_operand(st["rv"]["a"][0]))
+                if not one:
+                    bad = "an Ok return of select is not a one-element vec![..]"
+    R.count("select_returns[%s]" % cfg, n_ret)
+    # data event fields come from the selected operation's recv
+    for b in sorted(sel.live_blocks()):
+        for si, st in enumerate(sel.stmts(b)):
+            if st["s"] == "assign" and st["rv"]["r"] == "agg" and (st["rv"]["kind"].get("adt") or "").endswith("OsIpcSelectionResult") and st["rv"]["kind"]["variant"] == "DataReceived":
+                rs = trs.roots_of_operand(st["rv"]["a"][1])
+                if not any(r.kind == "call" and r.id == "crossbeam_channel::SelectedOperation::recv" and r.field_idx()[-1:] == (0,) for r in rs):
+                    bad = "the payload reported is not field 0 of the message received from the selected operation (%s)" % sorted(map(repr, rs))
+    if bad:
+        R.violate("%s:event-shape" % sel.path, bad, sel.path, sel.loc(0), config=cfg)
+    else:
+        R.ok("select reports one event per call, with the selected operation's message", sel.loc(0), cfg)
